@@ -176,6 +176,14 @@ func shouldProxy(method, urlPath string) (ok bool) {
 		return false
 	}
 
+	for _, part := range parts {
+		if part == "." || part == ".." {
+			// Don't proxy paths that leave the API prefixes once the backend
+			// normalizes them.
+			return false
+		}
+	}
+
 	switch method {
 	case http.MethodGet:
 		return shouldProxyGet(parts)
